@@ -434,3 +434,14 @@ def _c05_extra(ck, w):
 
 
 D_EXTRA['C05'] = _c05_extra
+
+
+# zip-equality sites without a length test that are fine (engines/ziplint.py)
+ZIP_EQ_OK = {
+    '<midnight_curves::curve25519::fp::Fp as subtle::ConstantTimeEq>::ct_eq|zip:self~other': 'both sides are the [u64; 4] limbs of one type',
+    'midnight_circuits::ecc::foreign::ecc_chip::ForeignEccChip::k_out_of_n_points|zip:idxs~idxs': 'adjacent pairs of one vector (zip with skip(1))',
+    'midnight_circuits::field::decomposition::chip::P2RDecompositionConfig::new|zip:native_config~pow2range_config': 'configuration sanity assert over column lists; prefix comparison intended (pow2range uses the first columns)',
+    '<midnight_circuits::field::foreign::field_chip::AssignedField as core::cmp::PartialEq>::eq|zip:self~other': 'limb vectors of one emulation parameter set have the same length by construction',
+    'midnight_circuits::field::foreign::field_chip::AssignedField::is_well_formed|zip:self~field_chip::well_formed_log2_b': 'bounds table is generated from the same parameter set as the limbs',
+    'midnight_circuits::hash::poseidon::poseidon_chip::PoseidonChip::permutation|zip:state~self': 'fixed-width state against the configured columns (debug assertion)',
+}
